@@ -272,7 +272,9 @@ func ckksEvaluatorTarget() *Target {
 			}},
 		{Method: "DropLevel", Doc: "DropLevel reduces the level of op0 by levels (in place)",
 			Kinds: []Kind{{Name: "ct1/levels=1", Class: "ct", Names: []string{"levels"}, Make: func(e *Env, g *Gen) []interface{} { return []interface{}{1} }}},
-			Out:   &OutSpec{Accumulates: true, New: func(e *Env, in []interface{}, _, _ int) interface{} { return NewGen("DropLevel").Ct(e, 1, e.MaxLevel()) }},
+			Out: &OutSpec{Accumulates: true, New: func(e *Env, in []interface{}, _, _ int) interface{} {
+				return NewGen("DropLevel").Ct(e, 1, e.MaxLevel())
+			}},
 			Call: func(rcv interface{}, in []interface{}, o interface{}) (interface{}, error) {
 				rcv.(ckksE).DropLevel(asCt(o), in[0].(int))
 				return o, nil
